@@ -6,213 +6,22 @@ import subprocess
 
 V = os.path.dirname(os.path.dirname(os.path.abspath(__file__)))
 
+import sys
+sys.path.insert(0, V)
+from sa.texts import T
+
 CHECKS = {
-    "C10": dict(
-        technique="regex automata (Glushkov/DFA product, inclusion witnesses, tokenizer model vs maximal munch) + symbolic case split per command letter + exception-flow lint",
-        text="Static decision of the lexical and tabular clauses: L(_FLOAT_RE) vs the transcribed SVG number grammar with the tokenizer "
-             "modelled as iterated longest prefix (every conforming string up to the bound is tokenised as maximal munch or rejected), "
-             "match-check-slice discipline of every yield in _parse_args, arity/implicit-repeat/arc typing tables, only ValueError raised in "
-             "the parse closure, printer language included in parser language. Holds for all inputs because it is a statement about the "
-             "automata and tables, not about sampled strings.",
-        note="Not decided: numeric equality float(str(x)) == x (CPython guarantee, trusted), non-str input. Trusted: CPython ast/re._parser, "
-             "transcribed SVG 1.1 BNF and float repr grammar in sa/spec.py.",
-        design="DESIGN.md section 3 / C10",
-    ),
+    pid: dict(
+        technique=t["technique"],
+        text=t["explanation"] + " Assurance: necessary conditions of the property, decided from the source for all values of the symbolic quantities and both sides of every "
+             "undecided branch on the listed case products / scenario documents; it is not a proof over all document shapes, and the part named under 'Not decided' "
+             "is outside any static argument in reach.",
+        note="Not decided: " + t["not_decided"] + ". Trusted: CPython ast / re._parser, the library models of the evaluator (lxml, skia-pathops, CPython builtins) and the "
+             "tables transcribed from SVG 1.1 in sa/spec.py" + ("; " + "; ".join(t["assumptions"]) if t["assumptions"] else "") + ".",
+        design=f"DESIGN.md section 3 / {pid}",
+    )
+    for pid, t in T.items()
 }
-
-CHECKS["C09"] = dict(
-    technique="abstract interpretation of the rewrite callbacks over a term/rational-function domain, exhaustive case split over letters, ordered pairs (and triples) of the 20 path commands, compared with a transcribed reference interpreter of SVG 1.1 path semantics",
-    text="For every rewrite (absolute, absolute_moveto, relative, explicit_lines, expand_shorthand, move, arcs_to_cubics, subpaths, as_cmd_seq, "
-         "round_floats, the seven as_path builders) the source is specialised per command letter / ordered pair (quick) / triple (thorough) with "
-         "symbolic arguments and the emitted commands are proved equal, as rational functions, to the reference SVG semantics and to the promised "
-         "target form. This quantifies over all letter contexts and all numbers at once, which example strings cannot.",
-    note="Not decided: the distance bound for arcs (C12), the 1e-9 near-start snapping branch (structure only), half-ulp rounding of round(). "
-         "Floating-point rounding is ignored (exact rational arithmetic). Trusted: sa/pathsem.py reference interpreter transcribed from SVG 1.1 8.3, sa/spec.py tables.",
-    design="DESIGN.md section 3 / C09",
-)
-
-CHECKS["C11"] = dict(
-    technique="polynomial/rational normal forms of the Affine2D source expressions vs SVG 1.1 matrices; symbolic interpretation of parse_svg_transform over all operators/arities/ordered pairs; regex automata for the transform grammar; case split of rect_to_rect over 30 preserveAspectRatio forms",
-    text="The algebraic laws (product, point mapping, inverse on both sides, every elementary operation = self @ M_op, left-to-right composition, "
-         "decompositions recomposing) are established as identities of rational functions on the source expressions, i.e. for all 6-tuples of "
-         "reals at once; the parser is interpreted symbolically for every operator, arity, letter case and ordered pair of operators; printer "
-         "templates are shown to re-parse to the same six numbers; rect_to_rect is compared with the specification for all alignment/meet/slice cases.",
-    note="Not decided: floating-point error, is_degenerate's epsilon policy. Trig functions are opaque atoms (parity, cos^2+sin^2=1). Trusted: matrices of SVG 1.1 7.6 in rules/c11.py.",
-    design="DESIGN.md section 3 / C11",
-)
-
-CHECKS["C15"] = dict(
-    technique="typestate dataflow analysis (cache states N/P/D + obligation bit) over every public method of SVG from every entry state, context-sensitive inlining of self-calls, def-use provenance for cache writes; structural return discipline for inplace/copy branches",
-    text="A history property decided for all histories at once: the lazily flushed shape cache is a three-state protocol, every public operation is "
-         "analysed from all three states, so any sequence of operations keeps tree and cache consistent iff no rule fires (no tree access in the "
-         "dirty state, no reset of a dirty cache, no exit with a cache shadowing a modified tree, primitives honour their contracts, in-place "
-         "returns self, copy returns the processed clone with every parameter forwarded).",
-    note="Not decided: value-level fidelity of to_element(from_element(x)); interleaving operations inside a consumer's loop over a traversal generator. "
-         "Frozen exemptions: xpath, xpath_one, resolve_url are pure queries. Trusted: lxml mutator name list in sa/typestate.py.",
-    design="DESIGN.md section 3 / C15",
-)
-
-CHECKS["C16"] = dict(
-    technique="whole-package effect and taint lints over the AST: forbidden-source calls (with positive control), set-typed expression inference and order-sensitive sink classification, module/class-level state writes, memoisation discipline",
-    text="Determinism is decided as absence of sources: no environment/time/identity/randomness API, no order-sensitive use of a hash-ordered "
-         "value except three frozen instances whose harmlessness is re-derived structurally on every run, no state surviving from one conversion "
-         "to the next (module containers, class attributes, mutable defaults, instance-keyed memo without clear-before-use), ids from a lowest-free "
-         "search. A dependence on hash seed or conversion order needs one of these constructs, so their absence covers every document and every "
-         "batch order at once.",
-    note="Trusted: lxml and skia-pathops are deterministic functions of their inputs; dict/attribute iteration is insertion order. Not decided: byte "
-         "equality inside those libraries.",
-    design="DESIGN.md section 3 / C16",
-)
-
-CHECKS["C17"] = dict(
-    technique="loop and recursion inventory over the call graph with structural termination arguments (worklist, parent walk, advancing index with non-nullable regex automata, structural descent, flag-bounded self-call, guarded reference walk); who-may-call lint for XML/file/network entry points",
-    text="Non-termination needs a loop or a call cycle; every one of them in the package is enumerated and must match a termination argument from a "
-         "closed list whose side conditions are checked on the syntax tree (pops and pushes of worklists, strict index progress on every path, "
-         "non-nullability of the token regexes, a visited set or a dominating cycle pre-check for every iterative reference walk). The single XML "
-         "entry point is hardened (resolve_entities=False) and nothing else parses XML, opens files or reaches the network; the gate raises.",
-    note="Not decided: running time proportional to the expanded document, memory growth. Recursive reference walks without cycle detection "
-         "(_resolve_clip_path, _apply_gradient_template) end in RecursionError - an exception, which the property allows (notes in the evidence).",
-    design="DESIGN.md section 3 / C17",
-)
-
-CHECKS["C01"] = dict(
-    technique="CFG dominance / post-dominance queries over the conversion pipeline with helper inlining, regex automata inclusion of the gate's allowlist in the README grammar, symbolic target-form checks of the path rewrites, def-use checks of attribute clean-up sites, who-may-create table for elements",
-    text="Necessary structural conditions of the output grammar on every path: the validating gate post-dominates the in-place pipeline and raises, "
-         "its allowlist language is included in the documented grammar, options flow by name from CLI to gate, every precedence the grammar needs "
-         "between stages holds by dominance, nothing changes numbers after rounding, every number is rounded unconditionally, rewrites reach the "
-         "restricted command set, kept groups carry only the clamped opacity the decision used, clean-up sites of _simplify are present, and no new "
-         "element creation site exists.",
-    note="Known finding F5 (remove_unpainted_shapes after the last group pruning) is listed in known_findings.json. Not decided: finiteness of "
-         "Skia output, survival of evenodd on paths no path operation touched, lxml serialisation.",
-    design="DESIGN.md section 3 / C01",
-)
-
-CHECKS["C02"] = dict(
-    technique="sibling call-site analysis of affine composition with def-use provenance of operands, polynomial identities of the affine algebra (shared with C11), structural must-apply / document-order / viewport checks",
-    text="Rendering equality is geometric and not decided. Decided necessary conditions, each of which breaks the rendering of some document when "
-         "violated: operand order at every composition site of the flattening code (own transform before context, use offset before use transform, "
-         "viewport mapping before transform attribute, child before parent), the algebra those sites rely on, every emitted piece mapped through the "
-         "context transform, document order of replacements / swaps / stroke split, nested-svg viewport parameters with the viewBox extent passed "
-         "down, child contexts derived from parent contexts.",
-    note="Not applicable to this family: point-wise equality of the paint stack (needs a renderer and sample points), Skia's transform arithmetic, shape geometry (C09).",
-    design="DESIGN.md section 3 / C02",
-)
-CHECKS["C03"] = dict(
-    technique="sibling call-site analysis (fill-rule vs clip-rule provenance, inherited attributes at from_element sites), statement-order checks of clip region construction / stacking / application, plus the C13 boolean-operation plumbing rules",
-    text="Exactness of the clipped region is Skia's. Decided necessary conditions: positional pairing of the clipped shape with fill_rule and of clip "
-         "operands with clip_rule, clip region = union of children (use resolved first) intersected with the clipPath's own clip, transformed "
-         "child > clipPath > referencing CTM, a child's clips extend the parent's and are resolved unconditionally with the child's CTM, every piece "
-         "is clipped after stroke and transform, and every rendered shape is read with inherited attributes (known finding F10 at _resolve_clip_path).",
-    note="Not applicable: set-theoretic equality at sample points. Known finding F10 in known_findings.json.",
-    design="DESIGN.md section 3 / C03",
-)
-CHECKS["C13"] = dict(
-    technique="table comparison of the Skia mapping tables, def-use / path checks of _do_pathop (operand-rule pairing, left fold, final simplify on every value return), exact-shape check of the operation wrappers, exception-handler lint over the call-graph closure",
-    text="Skia computes the regions; the check decides that Skia is asked the right question on every path: same-named fill types/builders/verbs, "
-         "operand i with rule i, left fold with fix_winding, a final simplify(fix_winding=True) before the only value return, wrappers that are exactly "
-         "the fold (no shortcut returning an operand), and no handler that could turn a Skia failure into a wrong path.",
-    note="Not applicable: that the returned interior equals the set combination at sample points (Skia internals).",
-    design="DESIGN.md section 3 / C13",
-)
-
-CHECKS["C04"] = dict(
-    technique="abstract interpretation of SVG._stroke and stroke_commands over symbolic paints/opacities/dash arrays, statement-order check of the stroke step in _simplify, table comparison of cap/join maps, argument-position checks against callee signatures",
-    text="The outline geometry is Skia's. Decided: the stroke is computed on the untransformed path before transform and clip, the fill/stroke split "
-         "moves opacity products, paints, rules, ids and geometry exactly as specified on every path (symbolic values, so for all shapes), dash arrays "
-         "are parsed per SVG with odd-length repetition, and each stroke parameter reaches Skia under its own name, unmodified, in signature order.",
-    note="Not applicable: the covered region near caps/joins/dash ends, Skia's 0.25-unit resolution. Trusted: skia-pathops Path.stroke signature.",
-    design="DESIGN.md section 3 / C04",
-)
-
-CHECKS["C05"] = dict(
-    technique="abstract interpretation of every inheritance handler on the four parent/child presence combinations (kinds derived from bodies, compared with the SVG property table), table comparison of defaults, structural predicates for group retention and style precedence, call-site agreement for opacity pushing, symbolic interpretation of normalize_opacity",
-    text="Composited colour is not decided. Decided: which ancestor wins and how values combine for every property (handler kinds derived by "
-         "interpreting the handler bodies, so a renamed or rewritten handler is judged by what it does), defaults equal SVG initial values, the "
-         "keep-or-flatten predicate and its child count, a dissolved group's opacity reaching each child exactly once at every call site, style "
-         "declarations overriding attributes, opacity folding of the absent paint, and the own-before-inherited order of the traversal context.",
-    note="Not applicable: composited colour at sample points; the `inherit` keyword and currentColor are out of the property's scope.",
-    design="DESIGN.md section 3 / C05",
-)
-
-CHECKS["C06"] = dict(
-    technique="abstract interpretation of the gradient from_element classmethods and of as_user_space_units (for every class in the hierarchy defining it) over symbolic boxes and transforms with rational-function comparison, operand-order and straight-line call-site checks for the CTM clone, table and statement-order checks for translation folding and template inlining",
-    text="Colour at a point is not decided. Decided necessary conditions: gradient attributes are parsed with the specification defaults and scaled by "
-         "the right axis of the right reference box for every presence pattern; bounding-box units are converted by composing gradientTransform "
-         "first and the unit-square->bbox map second without touching coordinates; the CTM is applied after gradient space, from the untransformed "
-         "shape's bbox, for every transformed shape (no cache); only point-valued pairs are translated; decomposition recomposes; template "
-         "inheritance honours own-wins / stops-if-absent / chain-first.",
-    note="Not applicable: colour equality at interior points, 6-decimal rounding error. Scope as in the property (bbox units need unaltered geometry).",
-    design="DESIGN.md section 3 / C06",
-)
-
-CHECKS["C12"] = dict(
-    technique="abstract interpretation of arc_to_cubic.py over symbolic arcs with rational-function comparison against SVG 1.1 F.6.5/F.6.6 (radius correction, flag symmetries, segment continuity, control-point construction, back-transform order), path-condition inspection of the dispatch",
-    text="The 0.03% accuracy bound and the number of segments are numeric and not decided. Decided for all arcs at once: |rx|,|ry| reach the "
-         "parametrisation, coincident end points (exact equality, tested first) give nothing and zero radii one straight segment, the radius "
-         "correction uses Lambda of F.6.6 with the half chord rotated by -phi and scales both radii, the centre/angle selection has the flag structure "
-         "of F.6.5 (mirror centres, negation iff sweep == large, 2pi adjustment by sweep), consecutive segments join, control points follow the "
-         "tangent construction, points are mapped back by translate o rotate o scale, and the last segment ends at the exact end point.",
-    note="Not applicable to this family: distance of the cubics from the true ellipse, segment count (numeric). atan2/sqrt/max are opaque atoms.",
-    design="DESIGN.md section 3 / C12",
-)
-
-CHECKS["C18"] = dict(
-    technique="abstract interpretation of SVGShape.might_paint over the full product of paint attributes and geometry classes compared with a reference predicate; sibling call-site analysis of the verdict's receivers; structural checks of remove_unpainted_shapes and path_area",
-    text="The verdict ladder is a finite decision procedure over attribute classes plus one computed area: it is interpreted on every combination "
-         "(556 cases incl. style-resolved display, zero-length geometry and the Skia-error path) and must equal 'visible stroke, or visible fill with "
-         "area > 0' with an exact-zero comparison; every site where a negative verdict deletes content must ask a receiver that carries the "
-         "content's own paint.",
-    note="Not applicable: whether Skia reports exactly zero area for sub-resolution slivers.",
-    design="DESIGN.md section 3 / C18",
-)
-
-CHECKS["C19"] = dict(
-    technique="symbolic interpretation of Rect.intersection/union and SVGShape.bounding_box with opaque min/max, API-choice and guard-structure checks of clip_to_viewbox, hidden-state lint over the shape dataclasses",
-    text="Geometric exactness is Skia's. Decided: the tight-bounds API is used on the current command sequence with the right coordinate "
-         "conversion, nothing memoises geometry on a mutable shape, Rect algebra equals the interval formulas on every path, and clip_to_viewbox "
-         "deletes only disjoint shapes, skips only contained ones and clips the rest against the intersection rectangle at its true origin under "
-         "(fill_rule, clip_rule).",
-    note="Not applicable: exactness of Skia's bounds/intersection at the border.",
-    design="DESIGN.md section 3 / C19",
-)
-
-CHECKS["C20"] = dict(
-    technique="verify-before-return guard analysis on the syntax tree of affine_between/_round (every non-None return directly under a successful check on the same variables), structural checks of the verification chain, symbolic interpretation of _affine_callback per command letter against the affine image",
-    text="Soundness of the heuristic search reduces to a guard property over all returns: nothing but None, the verified identity or a verified-then-"
-         "reverified rounded candidate can be returned, the verification compares the image of s1 with s2 exhaustively under the tolerance, the "
-         "translation is tried before any bail-out, and the image computed by _affine_callback is the affine image for every coordinate pair of "
-         "every command letter. For arcs the image also needs rotation/sweep updates which the callback never performs (known findings F9a, F9b).",
-    note="Not applicable: completeness of the search. Known findings F9a/F9b in known_findings.json.",
-    design="DESIGN.md section 3 / C20",
-)
-
-CHECKS["C07"] = dict(
-    technique="CFG dominance / never-after queries on the pipeline (rounding is the last writer of numbers, clean-ups after the last deleter), structural check that clipPath subtrees are deleted inside the leaves-first walk, symbolic interpretation of decompose_translation on translation-free matrices, who-may-allocate table for generated ids, effect lint of the gate",
-    text="Byte equality of two conversions is not decidable statically (float formatting, Skia). Decided necessary conditions for a fixed point: "
-         "nothing deletes shapes after the last pruning/orphan removal (violated today: known finding F5), nothing produces numbers after "
-         "round_floats and every number is rounded, clipPath subtrees disappear before parent-group and orphan decisions, re-normalising a "
-         "normalised gradient is a no-op, ids are only generated for constructs a converted document no longer has, and the gate is pure.",
-    note="Not applicable to this family: numeric stability of rounding under re-parse, Skia determinism on its own output. Known finding F5 listed.",
-    design="DESIGN.md section 3 / C07",
-)
-CHECKS["C08"] = dict(
-    technique="sibling analysis of element-copy sites (id strip over root and descendants before attachment), statement-order checks allocate-then-attach incl. laziness of the swap consumer, structural completeness of the used-gradient scan, who-may-delete table, pipeline order query for orphan removal",
-    text="Uniqueness, non-dangling and non-orphan references reduce to site rules: every copy inserted into the same tree strips ids from the whole "
-         "copied subtree first, splits clear ids, every generated id comes from a whole-tree lowest-free search and is attached before the next "
-         "allocation (lazily consumed swaps), gradients are deleted only when no shape of the whole document uses them, fills are rewritten to "
-         "the element just added, and no shape is deleted after the last orphan removal (violated today: known finding F5).",
-    note="Premise as in the property: every reference in the source resolves. Observations (exception at the gate, not violations) are listed in the evidence assumptions.",
-    design="DESIGN.md section 3 / C08",
-)
-CHECKS["C14"] = dict(
-    technique="CFG dominance queries (junk removers dominate every interpreting stage), parser-flag site check, live-iterator deletion lint, structural checks of the removers and of the redundant-node filters at counting/indexing sites",
-    text="A relation between two conversions is not observable statically; decided is that ignorable nodes are dropped at parse time or removed "
-         "before any stage that interprets, counts or instantiates elements (by dominance on every path), that removers select complete target "
-         "sets with materialised queries and never delete during a live document walk, and that every counting/indexing child iteration "
-         "filters comments and processing instructions.",
-    note="Not applicable: equality of convert(N(D)) and convert(D) as documents (needs two runs).",
-    design="DESIGN.md section 3 / C14",
-)
 
 NOT_APPLICABLE = {}
 
@@ -252,21 +61,21 @@ def main():
         "setup_cmd": "true",
         "hooks": {
             "guard": "PICOSVG_VERIF",
-            "enable": "no hooks: every check is a static analysis of /repo/src/picosvg/*.py (ast, re._parser); nothing in /repo reads the guard and nothing is executed",
+            "enable": "no hooks: every check is a static analysis of /repo/src/picosvg/*.py (ast, re._parser); nothing in /repo reads the guard and nothing is executed. The only commits made to /repo are unguarded repairs of genuine defects (messages start with fix:): " + " ".join(sorted(fix)),
             "baseline_off_cmd": "cd /repo && /venv/bin/python -m pytest -ra -q -p no:cacheprovider --timeout=900 --continue-on-collection-errors",
-            "source_commits": sorted(fix),
+            "source_commits": [],
             "add_only": True,
         },
         "engines": [
             {"name": "sa", "path": "/verif/sa", "serves_properties": [c["property_id"] for c in checks],
-             "kind_free_text": "repo-specific static analyser: ast loader + constant folder, statement CFG with dominators, call resolver, "
-                               "symbolic case-split evaluator over rational-function normal forms, regex automata, cache typestate, effect lints; "
-                               "entry ./check CNN"},
+             "kind_free_text": "repo-specific static analyser: ast loader + constant folder, case-splitting abstract interpreter of the package's source "
+                               "(rational-function number domain, abstract lxml DOM, abstract skia-pathops region algebra), regex automata, statement CFG / call graph, "
+                               "cache typestate, effect lints; entry ./check CNN"},
         ],
         "checks": checks,
         "notes": "All checks are static (no repository code is imported or executed). Behavioural parts that quantify over runtime quantities "
                  "(rendering/colour equality, numeric accuracy of arcs/strokes/areas, byte equality of two runs inside lxml/Skia, running time) are "
-                 "declared not applicable per property in DESIGN.md section 8 and in each level_note. Known findings: /verif/known_findings.json.",
+                 "stated as not decided per property in DESIGN.md section 3 and in each level_note. Known findings: /verif/known_findings.json.",
         "not_applicable": na,
     }
     with open(os.path.join(V, "MANIFEST.json"), "w") as f:
